@@ -446,6 +446,9 @@ class Eval:
                     ast1 = case["files"][case["main"]]
                     self.requests.append({"op": "comp.tosrc", "prog": complower.program(ast1, res.get("macro_order")), "core": surface.lower_program(ast1)})
                     self.tags.append(("f5",))
+                    # tie of the compiler model itself: its compile result = the real result, op for op (the views of C03)
+                    self.requests.append({"op": "comp.compile", "prog": complower.program(ast1, res.get("macro_order"))})
+                    self.tags.append(("f5c",))
                 except Exception:  # noqa
                     self.stats["F5:not_lowered"] += 1
         for e in res.get("log", []):
@@ -491,6 +494,15 @@ class Eval:
                     self.stats["F6:flattened_model_result_differs"] += 1
                     self.ties.append(("correspondence C05/flatten: the model's compile result of the flattened project differs from the real multi-file result",
                                       {"case": self.case, "model": model_view(rep.get("result", {})), "real": real_view(res), "order": rep.get("order")}))
+                continue
+            if tag[0] == "f5c":
+                from . import c03 as _c03
+                if _c03.model_view(rep) == _c03.real_view(res):
+                    self.stats["F5:model_result_equals_real"] += 1
+                else:
+                    self.stats["F5:model_result_differs"] += 1
+                    self.ties.append(("correspondence C05/compile: the Lean compiler model (ESV.Comp.compile) and the real compiler give different results for a "
+                                      "single-file program with macros", {"case": self.case, "model": _c03.model_view(rep), "real": _c03.real_view(res)}))
                 continue
             if tag[0] == "f5":
                 if "error" in rep:
@@ -975,14 +987,17 @@ def run(run: core.Run) -> int:
         "dag_shapes": {"groups": len(groups), "shapes_with_an_order_that_does_not_compile": dict(shapes_failing)},
         "glue_mismatches": glue_bad, "correspondence_mismatches": tally["ties"],
     }
-    return run.finish("translation_validation", cov, [
+    return run.finish("proof", cov, [
         "the reference 'program with every call replaced by the body' is Stmt.macroCall of lean/ESV/Src/Sem.lean: parameters are substituted after lowering "
         "(a parameter receiving $PERFORMANCE_PROGRESS_LIST does not change the opcode chosen for `$p[i]`), the innermost binding wins, names of the caller's "
         "parameters occurring free in a callee are captured (as inner-first textual inlining does)",
         "parameters used in integer-like positions only receive integer-like arguments (otherwise the inlined text would not be a program)",
         "imported files import what they use themselves; macro names are unique across files except for shadowed lookup variants",
         "relative lookup paths are taken relative to the importing file's directory (what the code does; the documentation is silent)",
-        "behaviour: per-program verdicts by a proven checker, no forall-programs theorem about macro expansion; ordering/imports: theorems about models tied by exact comparison",
+        "behaviour: compile_correct_F5 / _F6 are theorems about the hand-written compiler model ESV.Comp (+ Project flattening), tied to the real compiler by exact "
+        "comparison of compile results on every generated single-file program and multi-file layout of this run (outcomes F5:model_result_equals_real, "
+        "F6:flattened_model_result_equals_real); programs outside the decidable fragment and everything the model does not cover are decided per program by the "
+        "kernel-checked validator; ordering/imports: theorems about models tied by exact comparison",
     ])
 
 
